@@ -17,7 +17,7 @@ RULE = ("conversion: every string N(.N){0,2}[-(alpha|beta|rc)[.N]] over the stat
 ASSUMPTIONS = ["precedence as the property defines it: numeric per field (missing = 0), alpha < beta < rc < release, "
                "then pre-release number (missing = 0)",
                "mixed-arity pairs whose shorter string carries a label are outside the domain (DESIGN.md O1)"]
-BOUNDS = {"quick": "fields in {0,1,2,10}: all pairs; VERSION tuples {0,1,2,127,254,255}^4 all ordered pairs",
+BOUNDS = {"quick": "fields in {0,1,2,10,255}: all pairs; VERSION tuples {0,1,2,127,254,255}^4 all ordered pairs",
           "thorough": "fields in {0,1,2,9,10,255,256,300}: all pairs; VERSION tuples as quick x all EXTRAVERSION forms"}
 
 LABELS = ["alpha", "beta", "rc"]
@@ -27,7 +27,7 @@ BAD_LABELS = ["gamma", "dev", "pre", "a", "RC", "Alpha", "rc1", "alpha2", "snaps
 
 
 def all_strings(tier):
-    ns = [0, 1, 2, 10] if tier == "quick" else [0, 1, 2, 9, 10, 255, 256, 300]
+    ns = [0, 1, 2, 10, 255] if tier == "quick" else [0, 1, 2, 9, 10, 255, 256, 300]
     out = []
     for ar in (1, 2, 3):
         for rel in itertools.product(ns, repeat=ar):
